@@ -145,6 +145,17 @@ Theorem C09_to_uint_exact : forall k a, go_uint k a = to_uint k a.
 Proof. exact go_uint_is_to_uint. Qed.
 Print Assumptions C09_to_uint_exact.
 
+(* s[i] on a text without surrogates: the code unit for every index below the length - U+FFFD
+   included (after 66edf49) - and undefined at or beyond it *)
+Theorem C09_index_at_bmp : forall u i, bmp_clean u -> 0 <= i < zlen u ->
+  m_index_at (dec16 u) i = VStr [unit_at u i].
+Proof. exact index_at_bmp. Qed.
+Print Assumptions C09_index_at_bmp.
+
+Theorem C09_index_at_beyond : forall s i, i < 0 \/ zlen (enc16 s) <= i -> m_index_at s i = VUndef.
+Proof. exact index_at_beyond. Qed.
+Print Assumptions C09_index_at_beyond.
+
 (* only the canonical decimal text of an index below 2^32-1 is an index name of a string (after 4b90749) *)
 Theorem C09_index_name_canonical : forall p, 0 <= string_to_array_index p ->
   int_text (string_to_array_index p) = p /\ string_to_array_index p < 4294967295.
@@ -377,6 +388,8 @@ Example C09_lastIndexOf_hyp_met : to_number (n (2 ^ 63)) = Some (encode_int_or_n
   is_nan_bits (encode_int_or_nan (2 ^ 63)) = false /\ to_integer_bits (encode_int_or_nan (2 ^ 63)) <> NInf /\
   call_model MLastIndexOf (RLit [97; 98; 99]) [AStr [99]; n (2 ^ 63)] = Some (VInt 2).
 Proof. vm_compute. repeat split; discriminate. Qed.
+Example C09_index_fffd_met : bmp_clean [65533; 97] /\ m_index (dec16 [65533; 97]) [48] = VStr [65533].
+Proof. split; [repeat constructor; cbv; discriminate | vm_compute; reflexivity]. Qed.
 Example C09_index_name_hyp_met : string_to_array_index [49; 50] = 12 /\ string_to_array_index [48; 49] = -1.
 Proof. vm_compute. split; reflexivity. Qed.
 Example C09_split_join_hyp_met : zlen [97; 44; 98] + 1 < 2 ^ 32 - 1 /\
